@@ -1,0 +1,29 @@
+//go:build verif
+
+package file
+
+// Contracts for the file library (C10). Comment-only file; read by /verif/znvc.
+// The operating-system calls are trusted externals: they return either a non-nil error or a usable result.
+
+//@ globalinv fileLIB nonnil
+
+//@ external os.Open(name) (f, err)
+//@   modifies nothing
+//@   ensures (err == nil ==> f != nil) && (err == nil || err.ptr != 0)
+//@ external (*os.File).Close(f) (err)
+//@   modifies nothing
+//@ external io.ReadAll(r) (data, err)
+//@   modifies nothing
+//@   ensures err == nil || err.ptr != 0
+//@ external os.WriteFile(name, data, perm) (err)
+//@   modifies nothing
+//@   ensures err == nil || err.ptr != 0
+//@ external os.ReadDir(name) (entries, err)
+//@   modifies nothing
+//@   ensures err == nil || err.ptr != 0
+//@   ensures forall i int :: 0 <= i && i < len(entries) ==> entries[i] != nil && entries[i].ptr != 0
+//@ iface fs.DirEntry.Name(self) (s)
+//@   modifies nothing
+
+//@ func FN_readDir
+//@   loop 1 invariant fresh(info) && info != nil
